@@ -102,9 +102,15 @@ def _eligible(side, limit, price):
     return price >= limit if side == "BACK" else price <= limit
 
 
-def _run_world(mode, q, orders, seq, isolation, only_strategy=None):
+def _run_world(mode, q, orders, seq, isolation, only_strategy=None, variant=None):
     spec = simx.MarketSpec(book0=book_for(mode, q))
     ticks = [[200, e] for e in seq] + [[200, ["Q"]]]
+    if variant == "queue-shrinks-on-arrival" and mode != "MIXED" and q:
+        # the update on which the orders are acknowledged also shows a smaller queue at their prices: the queue
+        # ahead is the one of the book the placement executed against (the previous one)
+        side = "atl" if mode == "BACK" else "atb"
+        far = [[2.5, 10]] if mode == "BACK" else [[1.5, 10]]
+        ticks[0] = [ticks[0][0], ["M", [ticks[0][1], ["B", 1, side, [[p, 1] for p in PRICES] + far]]]]
     scripts = [dict(), dict()]
     index = []
     for n, (side, price, sidx, late) in enumerate(orders):
@@ -115,17 +121,20 @@ def _run_world(mode, q, orders, seq, isolation, only_strategy=None):
     skw = dict(max_order_exposure=None, max_selection_exposure=None, max_live_trade_count=10)
     h = Hooks()
     L._install_created_tracking()
-    w = simx.SimWorld([(spec, ticks)], [dict(script=scripts[k], kw=dict(skw), name="S%d" % k) for k in range(2)], hooks=h, cfg=dict(simulated_strategy_isolation=isolation)).run()
+    w = simx.SimWorld([(spec, ticks)], [dict(script=scripts[k], kw=dict(skw), name="S%d" % k, client=(k if variant == "two-clients" else 0)) for k in range(2)], hooks=h, cfg=dict(simulated_strategy_isolation=isolation), n_clients=2 if variant == "two-clients" else 1)
+    w.early_user_middleware = variant == "two-clients"
+    w.run()
     lines, pts = spec.gen(ticks)
     return w, h, lines, pts
 
 
 def _one(args):
-    mode, q, orders, seq, isolation = args
-    w, h, lines, pts = _run_world(mode, q, orders, seq, isolation)
+    mode, q, orders, seq, isolation = args[:5]
+    variant = args[5] if len(args) > 5 else None
+    w, h, lines, pts = _run_world(mode, q, orders, seq, isolation, variant=variant)
     out = []
     counts = {"clause:C06.a": 0, "clause:C06.b": 0, "clause:C06.c": 0, "clause:C06.d": 0, "competing_updates": 0, "queue_cleared": 0, "lone_fills": 0, "priority_decisions": 0}
-    case = dict(mode=mode, queue=q, orders=[list(o) for o in orders], updates=seq, isolation=isolation)
+    case = dict(mode=mode, queue=q, orders=[list(o) for o in orders], updates=seq, isolation=isolation, variant=variant)
     if w.run_exception is not None:
         out.append(core.v("C06.a", (isolation, len(orders), "exception", "-"), "run raised %r" % (w.run_exception,), case))
         return dict(violations=out, counts=counts, outcome=None)
@@ -217,7 +226,7 @@ def _one(args):
     # d) isolation: each strategy alone gets the same fills
     if isolation and len({o[2] for o in orders}) == 2:
         for sidx in (0, 1):
-            w2, h2, _, _ = _run_world(mode, q, orders, seq, True, only_strategy=sidx)
+            w2, h2, _, _ = _run_world(mode, q, orders, seq, True, only_strategy=sidx, variant=variant)
             counts["clause:C06.d"] += 1
             a = [[tuple(m) for m in o.simulated.matched] for o in getattr(w.strategies[sidx], "_created", [])]
             b = [[tuple(m) for m in o.simulated.matched] for o in getattr(w2.strategies[sidx], "_created", [])]
@@ -254,6 +263,17 @@ def run(tier):
                         if not iso and len(orders) == 1:
                             continue
                         jobs.append((mode, q, orders, seq, iso))
+    # set-up variants: two clients with a user middleware registered before the second client; queue shrinking on
+    # the very update that acknowledges the orders
+    vseqs = [s for s in seqs if len(s) <= 2]
+    for variant in ("two-clients", "queue-shrinks-on-arrival"):
+        for mode in ("BACK", "LAY"):
+            for q in (2, 6):
+                for orders in order_configs(mode)[:14]:
+                    if variant == "queue-shrinks-on-arrival" and any(o[3] for o in orders):
+                        continue  # a late order legitimately sees the smaller queue of the book before ITS arrival
+                    for seq in vseqs:
+                        jobs.append((mode, q, orders, seq, True, variant))
     if thorough:
         # length-4 sequences for lone orders and pairs over a reduced option set
         small = [o for o in opts if len(o[2]) <= 1][:5]
@@ -286,7 +306,7 @@ def run(tier):
 
 def replay(rep):
     c = rep["case"]
-    r = _one((c["mode"], c["queue"], [tuple(o) for o in c["orders"]], c["updates"], c["isolation"]))
+    r = _one((c["mode"], c["queue"], [tuple(o) for o in c["orders"]], c["updates"], c["isolation"], c.get("variant")))
     for d in r["violations"]:
         print(d["key"], d["detail"])
     return 1 if r["violations"] else 0
